@@ -15,7 +15,8 @@ RULES = {
     "function (the clone's independence is C13's)",
     "R2": "nested scopes: GRAPH and GRAPHS attributes are handled alike in the region search and in the implicit-usage "
     "analysis (S1); graph_stack pushes and pops are paired on every path",
-    "R3": "boundedness: the frontier validation (raise on a required value not covered by the inputs) comes after the "
+    "R3": "original order: the position table behind the final sort enumerates the searched graph-like (a parameter that is "
+    "not an ownership anchor) ; boundedness: the frontier validation (raise on a required value not covered by the inputs) comes after the "
     "traversal and dominates the normal return; the traversal stops at the given inputs and records initializers",
     "R4": "ownership anchors are owning graphs: a parameter that the region search / capture analysis compares by identity "
     "with `<value>.graph` receives, at every call site (followed up through forwarding parameters), an expression whose "
@@ -120,6 +121,41 @@ def rule_r4(ctx):
                           how="inferred classes of the argument (declared/assigned types, isinstance narrowing) ⊆ Graph",
                           construct=f"{g.local}({param}={norm(arg)})")
     ctx.require(n >= 1, "no call site supplies an ownership anchor")
+    rule_order_source(ctx, funcs, done)
+
+
+def rule_order_source(ctx, funcs, anchor_params):
+    """"In their original order": the position table that sorts the selected nodes enumerates the graph-like that is being
+    searched - a parameter that is not an ownership anchor (the anchor is the owning Graph of the boundary values; for a
+    view it lists other nodes, in another order, than the source of the extraction)."""
+    n = 0
+    for f in funcs:
+        if f.module.name != EX:
+            continue
+        for c in calls_in(f):
+            is_sort = (isinstance(c.func, ast.Attribute) and c.func.attr == "sort") or dotted_of(c.func) == "sorted"
+            key = next((k.value for k in c.keywords if k.arg == "key"), None)
+            if not is_sort or not isinstance(key, ast.Lambda):
+                continue
+            tabs = [x.value.id for x in ast.walk(key.body) if isinstance(x, ast.Subscript) and isinstance(x.value, ast.Name)]
+            for tab in tabs:
+                for a in own_nodes(f.node):
+                    if not (isinstance(a, ast.Assign) and any(isinstance(t, ast.Name) and t.id == tab for t in a.targets)):
+                        continue
+                    enum = [x for x in ast.walk(a.value) if isinstance(x, ast.Call) and dotted_of(x.func) == "enumerate" and x.args]
+                    if not enum:
+                        continue
+                    n += 1
+                    src = enum[0].args[0]
+                    ok = isinstance(src, ast.Name) and src.id in f.params and (f.key, src.id) not in anchor_params
+                    ctx.check("R3", f"{f.local}: the order table `{tab}` enumerates the searched graph-like, not the ownership anchor", ok, f, a,
+                              f"positions of the selected nodes are taken from `{norm(src)}`"
+                              + (" - the ownership anchor (the Graph that owns the boundary values)" if isinstance(src, ast.Name) and (f.key, src.id) in anchor_params else "")
+                              + ": for a GraphView source this is another node sequence than the one being extracted from, so the result's order differs "
+                              "from the source's order (or the sort fails on nodes the table does not list)",
+                              how="sort key → position table → enumerate(<parameter>); parameter classified by the R4 anchor analysis",
+                              construct=f"order table enumerates {'an ownership anchor' if isinstance(src, ast.Name) and (f.key, src.id) in anchor_params else 'a non-parameter'}")
+    ctx.require(n >= 1, "the position table that restores the original node order was not found")
 
 
 def rule_r5(ctx):
